@@ -47,7 +47,11 @@ META = {
         "after every match and post-walk, returned flag, and per call what every handler set on walker.listener heard) "
         "with the instrumented real walker — for single calls and for histories of up to three calls on one walker "
         "(handlers appended to walker.listener / the listener replaced / exhausted countdown markers re-armed by the "
-        "user between calls; later calls on the module body or on a closed inner region); the complete "
+        "user between calls; later calls on the module body or on a closed inner region) and for every Builder state a "
+        "pattern may put the rewriter in (rewriter.name_hint set per match / on alternate invocations / to a suffixed "
+        "name; fresh ops handed over by insert(ops, point), by insertion_point + insert(ops), or created under "
+        "ImplicitBuilder(rewriter); fresh ops with 0, 1 and 2 results, alone, in lists and inside replace) — the model "
+        "has no name hint: what is notified and queued must not depend on it; the complete "
         "push/remove/pop/__bool__ trace of the walker's real Worklist object over the whole history is checked against "
         "an independent duplicate-free stack after every operation (result and contents) and replayed on the Lean "
         "worklist model XdslModel/Worklist.lean (correspondence:C11/worklist); independent direct "
@@ -71,7 +75,10 @@ META = {
         "operation, strict subsets, all and none on values used in several operand slots of one op and across ops; "
         "replace_value_with_new_type on results (owner must be notified) and on block arguments (users of a retyped "
         "value keep the 'same' operand: not counted as modified).  Patterns may erase ops other than the matched "
-        "one (unused siblings, incl. ops inserted by earlier matches that are still queued).  Histories: 'registered "
+        "one (unused siblings, incl. ops inserted by earlier matches that are still queued).  Patterns may set "
+        "rewriter.name_hint and rewriter.insertion_point and may build ops under ImplicitBuilder(rewriter) (the public "
+        "Builder interface of the rewriter); an insertion reported more than once is not a failure of the sentence (it "
+        "shows up only as a trace difference with the Lean driver).  Histories: 'registered "
         "listeners' of a call = the handlers held by walker.listener when rewrite_region/rewrite_module is called; "
         "events delivered to handlers that are no longer on walker.listener are not judged.  A later call is made on "
         "an inner region only when no op under it uses a value defined outside (so that everything a pattern touches "
@@ -81,7 +88,8 @@ META = {
         "entries make terminating pattern sets loop."
     ),
     "rule": (
-        "case = (IR spec, pattern set, walk configuration, schedule, history of later calls on the same walker); "
+        "case = (IR spec, pattern set, walk configuration incl. the Builder state used by the patterns, schedule, "
+        "history of later calls on the same walker); "
         "non-trivial = at least one match of some call executed a rewriter call; distinct = distinct (canonical IR "
         "spec, patterns, config, schedule seed, history)."
     ),
@@ -348,7 +356,11 @@ def print_module(module: Any) -> str:
 # patterns (terminating; all mutations go through the rewriter)
 # ---------------------------------------------------------------------------------------------
 
-def make_patterns(names: list, lab: Labels) -> list[Any]:
+def make_patterns(names: list, lab: Labels, via: int = 0) -> list[Any]:
+    """`via` = how the patterns of the case hand fresh ops to the rewriter (the Builder state a pattern may
+    use): 0 `rewriter.insert(ops, point)`, 1 `rewriter.insertion_point = point; rewriter.insert(ops)`,
+    2 `rewriter.insertion_point = point; with ImplicitBuilder(rewriter): <create the ops>`"""
+    from xdsl.builder import ImplicitBuilder
     from xdsl.dialects.builtin import IntAttr
     from xdsl.dialects.test import TestOp, TestPureOp, TestType
     from xdsl.ir import Region
@@ -375,6 +387,20 @@ def make_patterns(names: list, lab: Labels) -> list[Any]:
     def int_attrs(op: Any) -> dict[str, int]:
         return {k: v.data for k, v in op.attributes.items() if isinstance(v, IntAttr)}
 
+    def put(rewriter: Any, make: Any, ip: Any) -> None:
+        """insert the ops `make()` creates (in order) at `ip`, the way the case says"""
+        if via == 0:
+            ops = make()
+            rewriter.insert(ops[0] if len(ops) == 1 else ops, ip)
+        elif via == 1:
+            rewriter.insertion_point = ip
+            ops = make()
+            rewriter.insert(ops[0] if len(ops) == 1 else ops)
+        else:
+            rewriter.insertion_point = ip
+            with ImplicitBuilder(rewriter):
+                make()
+
     class Erase(RewritePattern):
         """erase-if-unused (ops with or without regions)"""
         def match_and_rewrite(self, op, rewriter: PatternRewriter):
@@ -395,6 +421,11 @@ def make_patterns(names: list, lab: Labels) -> list[Any]:
             regions = [op.detach_region(r) for r in list(op.regions)]
             if self.variant == 0:
                 rewriter.replace(op, new_op(op.operands, len(op.results), a, regions))
+            elif self.variant == 2:
+                # the replacement is followed by a fresh op WITHOUT results and preceded by one with two
+                main = new_op(op.operands, len(op.results), a, regions)
+                rewriter.replace(op, [new_op(op.operands[:1], 2, {}), main, new_op(main.results[:1], 0, {"c": 1})],
+                                 new_results=list(main.results))
             else:
                 helper = new_op(op.operands, 1, {"c": 1})
                 rewriter.replace(op, [helper, new_op([helper.results[0], *op.operands], len(op.results), a, regions)])
@@ -410,15 +441,15 @@ def make_patterns(names: list, lab: Labels) -> list[Any]:
 
     class Insert(RewritePattern):
         """insert a new op before/after, bounded by the marker attribute (decremented in place)"""
-        def __init__(self, after: int, child_attr: int):
-            self.after, self.child_attr = after, child_attr
+        def __init__(self, after: int, child_attr: int, nres: int = 1):
+            self.after, self.child_attr, self.nres = after, child_attr, nres
 
         def match_and_rewrite(self, op, rewriter: PatternRewriter):
             n = attr(op, "i")
             if n is None or n <= 0 or op.name == "builtin.module":
                 return
-            child = new_op(op.operands[:1], 1, {"c": 1} if self.child_attr else {})
-            rewriter.insert(child, InsertPoint.after(op) if self.after else InsertPoint.before(op))
+            put(rewriter, lambda: [new_op(op.operands[:1], self.nres, {"c": 1} if self.child_attr else {})],
+                InsertPoint.after(op) if self.after else InsertPoint.before(op))
             op.attributes["i"] = IntAttr(n - 1)
             rewriter.notify_op_modified(op)
 
@@ -610,10 +641,10 @@ def make_patterns(names: list, lab: Labels) -> list[Any]:
             if n is None or n <= 0 or op.name == "builtin.module":
                 return
             if self.shape == 0:
-                ops = [new_op((), 1, {"c": 1}), new_op((), 0, {"kp": 1})]
+                make = lambda: [new_op((), 1, {"c": 1}), new_op((), 0, {"kp": 1})]  # noqa: E731
             else:
-                ops = [new_op((), 0, {"kn": 1}), new_op((), 1, {"c": 1})]
-            rewriter.insert(ops, InsertPoint.after(op) if self.after else InsertPoint.before(op))
+                make = lambda: [new_op((), 0, {"kn": 1}), new_op((), 1, {"c": 1})]  # noqa: E731
+            put(rewriter, make, InsertPoint.after(op) if self.after else InsertPoint.before(op))
             op.attributes["x"] = IntAttr(n - 1)
             rewriter.notify_op_modified(op)
 
@@ -648,7 +679,8 @@ def pattern_attr(p: list) -> str:
 # calls of one walker) sets exhausted markers back to 1
 COUNTDOWN_ATTRS = ("r", "i", "c", "rr", "kp", "kn", "x")
 PATTERN_VARIANTS = [
-    ["erase"], ["replace", 0], ["replace", 1], ["forward"], ["insert", 0, 0], ["insert", 1, 1], ["insert", 0, 1],
+    ["erase"], ["replace", 0], ["replace", 1], ["replace", 2], ["forward"],
+    ["insert", 0, 0], ["insert", 1, 1], ["insert", 0, 1], ["insert", 0, 1, 0], ["insert", 1, 1, 2], ["insert", 1, 0, 0],
     ["modify"], ["inline", 0], ["inline", 1], ["barg_add"], ["barg_erase"], ["barg_replace"], ["rauw"],
     ["create_block", 0], ["create_block", 1], ["replace_region"],
     ["rauw_if", 0], ["rauw_if", 1], ["rauw_if", 2], ["rauw_if", 3], ["rauw_if", 4], ["dedup"],
@@ -733,7 +765,7 @@ def patched_rewriter(rec: dict, lab: Labels, get_root: Any):
         host_ok = host.parent is not None and (host.parent is get_root() or (
             host.parent.parent is not None and is_attached(host.parent.parent, get_root())))
         for o in ops:
-            add(("ins", lab.op(o), [lab.op(x) for x in nested_ops(o)]))
+            add(("ins", lab.op(o), [lab.op(x) for x in nested_ops(o)], len(o.results)))
             if not host_ok:
                 rec["undisciplined"].append(f"insert of {lab.op(o)} at a detached point")
 
@@ -926,7 +958,8 @@ def run_real(case: dict, observe: bool = True) -> dict:
     def root() -> Any:
         return rootc["r"]
 
-    pats = make_patterns(case["pats"], lab)
+    pats = make_patterns(case["pats"], lab, int(cfg.get("via", 0)))
+    hint_mode = int(cfg.get("hint", 0))
     if cfg.get("applier", "greedy") == "greedy":
         inner: Any = GreedyRewritePatternApplier(pats, dce_enabled=bool(cfg.get("dce", 0)))
     elif len(pats) == 1 and cfg.get("applier") == "single":
@@ -1041,6 +1074,14 @@ def run_real(case: dict, observe: bool = True) -> dict:
             e0 = marks()
             raised = None
             try:
+                # Builder state a pattern may set before it builds ops: the name hint for fresh results
+                # (1: every match, 2: every other invocation, 3: a name with a numeric suffix, which the
+                # setter strips); the walker resets it before every match
+                if hint_mode == 1 or (hint_mode == 2 and tracer_state["invocations"] % 2 == 1):
+                    rewriter.name_hint = "fresh"
+                elif hint_mode == 3:
+                    rewriter.name_hint = "fresh_7"
+                m["hint"] = rewriter.name_hint
                 inner.match_and_rewrite(op, rewriter)
             except Abort:
                 raise
@@ -1409,8 +1450,11 @@ def oracle_stage(case: dict, obs: dict, only_visits: bool = False) -> list[tuple
                 site, sig = R + ".inline_block", "operand rewrite of the block-argument users is not reported to listeners"
             elif any(a[0] == "rauw" and len(a) > 3 for a in m["acts"]) and all(x.startswith("m") for x in missing):
                 site, sig = R + ".replace_uses_with_if", "operand rewrite of an accepted use is not reported to listeners"
-            elif reg[0] in late:
+            elif reg[0] in late and any(x.split("(")[0] in e for k, e in m["ev_all"].items() if k != reg[0] for x in missing):
+                # some other handler set (one registered earlier, or one no longer on walker.listener) did hear it
                 site, sig = W + "._get_rewriter_listener", LATE_SIG
+            elif any(a[0] == "ins" for a in m["acts"]) and all(x.startswith("i") for x in missing):
+                site, sig = R + ".insert", "insertion made through the rewriter is not reported to the registered listeners"
             else:
                 site, sig = R + ".handle_operation_*", "rewriter call not reported to the registered listeners"
             out.append((site, sig, f"{call}match on op {m['op']}: calls {[show_action(a) for a in m['acts']]} "
@@ -1577,6 +1621,15 @@ def seed_cases() -> list[dict]:
     for rf in (0, 1):
         out.append({"ir": sib, "pats": [["kill", 1], ["expand", 0, 0], ["kill", 0], ["modify"]],
                     "cfg": dict(base_cfg, rf=rf, applier="greedy")})
+    # Builder state set by the pattern (name hint for fresh results x how the ops reach the rewriter) x fresh
+    # ops with 0 / 1 / 2 results, inserted alone, as a list, or as part of a replacement
+    for hint in (0, 1, 2, 3):
+        for via in (0, 1, 2):
+            if hint == 0 and via == 0:
+                continue
+            for pats in ([["insert", 0, 1, 0], ["insert", 1, 1, 2], ["modify"]], [["expand", 1, 0], ["kill", 0], ["modify"]],
+                         [["replace", 2], ["modify"]], [["replace", 1], ["insert", 1, 0, 0]]):
+                out.append({"ir": irs["flat"], "pats": pats, "cfg": dict(base_cfg, applier="greedy", hint=hint, via=via)})
     # several calls on one walker, walker.listener edited in between
     for edit in ("add", "replace"):
         for rec in (1, 0):
@@ -1625,6 +1678,12 @@ def gen_case(rng: random.Random, max_size: int) -> dict:
         "perturb": rng.randrange(1 << 30) if rng.random() < 0.5 else None,
         "applier": applier, "dce": int(rng.random() < 0.3),
     }
+    # Builder state used by the patterns of the case (absent = the plain `rewriter.insert(ops, point)` without
+    # a name hint)
+    if rng.random() < 0.4:
+        cfg["hint"] = rng.choice([1, 1, 2, 3])
+    if rng.random() < 0.3:
+        cfg["via"] = rng.choice([1, 2])
     case = {"ir": ir, "pats": pats, "cfg": cfg}
     if rng.random() < 0.3:
         # further calls on the same walker object; between two calls the user edits walker.listener, may re-arm
@@ -1729,6 +1788,11 @@ def case_candidates(case: dict):
     for k, v in (("perturb", None), ("post", 0), ("dce", 0), ("lst", 1), ("rf", 0), ("rev", 0)):
         if cfg.get(k) != v:
             c = copy.deepcopy(case); c["cfg"][k] = v; yield c
+    for k in ("via", "hint"):
+        if cfg.get(k):
+            c = copy.deepcopy(case); del c["cfg"][k]; yield c
+    if cfg.get("hint", 0) > 1:
+        c = copy.deepcopy(case); c["cfg"]["hint"] = 1; yield c
     if cfg.get("applier") != "single" and len(case["pats"]) == 1:
         c = copy.deepcopy(case); c["cfg"]["applier"] = "single"; yield c
     for ir in ir_candidates(case["ir"]):
@@ -1809,6 +1873,7 @@ def check_cases(ctx: core.Ctx, cases: list[dict], shrunk: set) -> None:
         ctx.count(f"cfg.listener_mode={cfg.get('lst', 1)}")
         if cfg.get("post"):
             ctx.count("cfg.post_walk_dce")
+        ctx.count(f"cfg.builder.name_hint={cfg.get('hint', 0)},via={cfg.get('via', 0)}")
         for p in case["pats"]:
             ctx.count("pattern." + p[0])
         ctx.count(f"history.calls={len(stages)}")
@@ -1824,6 +1889,8 @@ def check_cases(ctx: core.Ctx, cases: list[dict], shrunk: set) -> None:
             for m in st["matches"]:
                 for a in m["acts"]:
                     ctx.count("call." + a[0])
+                    if a[0] == "ins":
+                        ctx.count(f"insert.name_hint={'set' if m.get('hint') else 'none'},results={min(a[3], 2)}")
             ctx.count("invocations", len(st["matches"]))
             ctx.count("sweeps", len(st["sweeps"]))
         trace = obs["wl_trace"]
